@@ -108,11 +108,14 @@ In-place mutation, nested loops, decision trees (option `mut=True`, third pass; 
     `match e with | some x => A | none => B`; `match x { Enum::A => e1, .., _ => en }` on an enum value as a pure value.
   * ranges of `i32` (`0..n as i32`): the list of the casts `lo + (k : Int)`, `k < toNat (hi - lo)`; `x as usize` of an f64 is
     spelled by the option `f64_to_usize`; `true` / `false`; an array literal of f64 is a list.
+  * a struct literal `Name { a, b: e }` is `struct_mk[Name]` applied to the fields in the order of `struct_types[Name]` (the field
+    expressions are evaluated in the order of the literal); `self.<field>.<m>()` / `T::f(..).<m>()` listed in `field_calls` (the
+    draw of a cached sub-sampler) is a parameter; `type_alias` for associated types (`Self::Output`).
   * a `let mut m = <value of a struct type listed in struct_mk>` is exploded into its fields (`m.data[i] = e` updates the field
     `data`), the value `m` is rebuilt with the constructor `struct_mk[type]`; the return type `Self` is the impl's type.
   Still outside: `while` / `loop`, `break` / `continue`, `return` of anything but `None` inside a loop, checked `usize`
   subtraction / division inside a loop body or a branch, `match` with bindings or guards, `if let` on other patterns,
-  `&mut` arguments, struct literals, iterator adaptors not listed above.
+  `&mut self` / `&mut` arguments, iterator adaptors not listed above.
 
 Everything else raises `Unsupported` — never a silent approximation.
 
@@ -898,6 +901,26 @@ class Parser:
                 return N("macro", name=segs[-1], rng=rng)
             if self.at("("):
                 return N("call", path=segs, args=self.args())
+            if self.at("{") and getattr(self.src, "allow_mut", False) and not getattr(self, "no_struct", 0) \
+                    and len(segs) == 1 and segs[0][:1].isupper():
+                # struct literal `Name { a, b: e, }`
+                close = self.mt[self.i]
+                p = self.sub(self.i + 1, close)
+                fields = []
+                while p.i < p.hi:
+                    if p.peek().k != "id" or p.at(".."):
+                        raise Unsupported("struct literal field %r" % p.peek().s)
+                    fname = p.peek().s
+                    p.i += 1
+                    if p.at(":"):
+                        p.i += 1
+                        fields.append((fname, p.expr()))
+                    else:
+                        fields.append((fname, N("var", name=fname)))
+                    if p.i < p.hi:
+                        p.eat(",")
+                self.i = close + 1
+                return N("structlit", name=segs[0], fields=fields)
             if len(segs) == 1:
                 return N("var", name=segs[0])
             return N("path", segs=segs)
@@ -976,7 +999,11 @@ class Parser:
             return N("iflet", var=var, scrut=scrut, then=then, els=els)
         if self.at("let"):
             raise Unsupported("`if let`")
-        c = self.expr()
+        self.no_struct = getattr(self, "no_struct", 0) + 1      # no struct literal in a condition (as in Rust)
+        try:
+            c = self.expr()
+        finally:
+            self.no_struct -= 1
         then = self.braced_block()
         els = None
         if self.at("else"):
@@ -1083,6 +1110,9 @@ class Opts:
         self.adt_ctors = {}           # "Broadcast::Vstack" -> Lean constructor term (applied to the translated arguments)
         self.struct_types = {}        # struct type of a parameter -> [(field, type)]: binders `<param>_<field>`
         self.struct_methods = {}      # method on such a parameter -> list of fields: `m.shape()` = the tuple of these fields
+        self.type_alias = {}          # Rust type text -> Rust type text, e.g. {"Self::Output": "f64"} (associated types)
+        self.field_calls = {}         # `self.<field>.<method>()` -> (lean term, type): e.g. {"rng.sample": ("u", "f64")} (an RNG
+                                      # draw of a cached sub-sampler as a parameter); also "Type::ctor.method" for `T::f(..).m()`
         self.cfg_features = None      # the cargo features the crate is built with (tuple of names): `#[cfg(feature = ..)] { .. }`
                                       # blocks that are not compiled in are skipped, the enabled one is inlined; None: Unsupported
         self.f64_to_usize = None      # spelling of `x as usize` of an f64 (saturating cast), e.g. "toUsize {0}"
@@ -1437,6 +1467,8 @@ class Translator:
                 self.option_mode = self.started_option = True
             if o.mut and rtxt == "Self" and fn.impl:
                 rtxt = fn.impl
+            if o.mut:
+                rtxt = o.type_alias.get(rtxt, rtxt)
             self.ret_ty = self.ty2(rtxt) if rtxt else None
             if self.ret_ty is None:
                 raise Unsupported("return type %s" % self.src.snippet(fn.ret))
@@ -2552,6 +2584,22 @@ class Translator:
             return self.vec_macro(e, env)
         if o.mut and k == "match":
             return self.match_value(e, env)
+        if o.mut and k == "structlit":
+            name = self.fn.impl if e.name == "Self" and self.fn.impl else e.name
+            if name not in o.struct_mk or name not in o.struct_types or name not in o.adts:
+                raise Unsupported("struct literal `%s` (options struct_mk / struct_types / adts)" % name)
+            decl = o.struct_types[name]
+            if sorted(f for f, _ in e.fields) != sorted(f for f, _ in decl):
+                raise Unsupported("struct literal `%s`: fields differ from the declared ones" % name)
+            vals = {}
+            for f, fe in e.fields:                             # evaluated in the order of the literal
+                v, ty = self.expr(fe, env)
+                want = dict(decl)[f]
+                want = {"nat": U, "int": I, "f64": F, "vec": V, "bool": B}.get(want, want)
+                if not compat(ty, want):
+                    raise Unsupported("struct literal `%s`: field `%s` of type %s" % (name, f, ty))
+                vals[f] = self.atom(v)
+            return "(%s %s)" % (o.struct_mk[name], " ".join(vals[f] for f, _ in decl)), ("adt", name, o.adts[name])
         if o.mut and k == "index" and o.closure and e.e.kind == "var" and \
                 (e.e.name, self.src.pretty(e.rng)) in o.closure.get("index_vars", {}):
             ivv = o.closure["index_vars"][(e.e.name, self.src.pretty(e.rng))]     # a declared scalar of a fragment
@@ -2703,6 +2751,13 @@ class Translator:
         if o.loops and name == "unwrap" and not e.args and recv.kind == "call" and (
                 "::".join(recv.path) in o.opt_fns or recv.path[-1] in o.opt_fns):
             return self.expr(recv, env)             # `f(..).unwrap()`: the call is bound (`none` = Err / panic)
+        if o.mut and not e.args and recv.kind == "field" and recv.e.kind == "var" and recv.e.name == "self" \
+                and (recv.name + "." + name) in o.field_calls:
+            t_, ty_ = o.field_calls[recv.name + "." + name]
+            return t_, {"nat": U, "int": I, "f64": F, "vec": V, "bool": B}.get(ty_, ty_)
+        if o.mut and not e.args and recv.kind == "call" and ("::".join(recv.path) + "." + name) in o.field_calls:
+            t_, ty_ = o.field_calls["::".join(recv.path) + "." + name]
+            return t_, {"nat": U, "int": I, "f64": F, "vec": V, "bool": B}.get(ty_, ty_)
         if o.mut and name == "unwrap" and not e.args and recv.kind == "method" and recv.name == "split_first" and not recv.args:
             # `x.split_first().unwrap()` = `(&x[0], &x[1..])`: an index / slice panic on an empty slice, NOT modelled
             r, tr = self.expr(recv.recv, env)
@@ -3444,6 +3499,9 @@ fn n_rot(angle: f64, axis: Ax) -> Vec<f64> { let d = match axis { Ax::X => [1., 
 fn n_toep(x: &[f64]) -> Vec<f64> { let n = x.len(); let mut v = vec![0.; n]; for i in 0..n as i32 { v[i as usize] = x[(i - 1).abs() as usize]; } v }
 fn n_ar(a: f64, b: f64) -> Vec<f64> { let n = (b - a).ceil(); (0..n as usize).map(|i| a + i as f64).collect::<Vec<f64>>() }
 impl Mx { fn eye(d: usize) -> Self { let mut m = Self::zeros(d, d); for i in 0..d { m.data[i * d + i] = 1.; } m } }
+pub struct Ex { lambda: f64, rng: Un }
+impl Ex { pub fn new(lambda: f64) -> Self { if lambda <= 0. { panic!("no"); } Ex { lambda, rng: Un::new(0., 1.), } }
+    fn sample(&self) -> f64 { -self.rng.sample().ln() / self.lambda } }
 #[cfg(test)]
 mod tests { fn logistic(x: f64) -> f64 { x } }
 '''
@@ -3651,6 +3709,13 @@ def _selftest():
           "let m_data : List α := (List.set m_data ((i * d) + i) 1) m_data) m.data (List.range d) some (MK m_data m.nrows m.ncols)",
           adts={"Mx": "MX"}, struct_types={"Mx": [("data", "vec"), ("nrows", "nat"), ("ncols", "nat")]}, struct_mk={"Mx": "MK"},
           fns={"Self::zeros": "Z"}, fn_ret={"Self::zeros": ("adt", "Mx", "MX")}, opt_fns=("Self::zeros",), **M)
+    # struct literals (fields in declaration order, nested constructor bound first); a sub-sampler draw as a parameter
+    check("Ex::new", "if lambda ≤ 0 then none else (UN 0 1).bind fun (r1 : U') => some (MK lambda r1)", mut=True,
+          adts={"Ex": "E'", "Un": "U'"}, struct_types={"Ex": [("lambda", "f64"), ("rng", ("adt", "Un", "U'"))]},
+          struct_mk={"Ex": "MK"}, fns={"Un::new": "UN"}, fn_ret={"Un::new": ("adt", "Un", "U'")}, opt_fns=("Un::new",))
+    check("Ex::sample", "((-(Cv.Transc.ln u)) / lambda)", mut=True, field_calls={"rng.sample": ("u", "f64")},
+          extra_binders=[("u", "α")], self_fields=["lambda"])
+    refuse("Ex::sample", "self.rng is not a scalar field binder", mut=True, self_fields=["lambda"])
     # the test module's `logistic` is not a candidate; unknown names are reported
     try:
         S.find_fn("nope")
